@@ -159,6 +159,19 @@ def check_nodes(nodes, T, col, case, label):
             if not any(d == c or d == py_unwrap(c) for c in [*all_members, T]):
                 viol("5-deferred-denotes-member", f"node #{i} {n!r} denotes {d!r}, which is no member type of the graph {all_members!r}"[:500])
             ud = py_unwrap(d)
+            # ... and so does its `unwrapped` slot (what consumers build the delayed routine from): the unwrapped form of
+            # the type it stands for, parameters included - as the thing itself or as a reference that evaluates to it.
+            # (a string-valued alias unwraps to the reference to its body: clause 6 judges that)
+            if not (isinstance(d, typing.TypeAliasType) and isinstance(getattr(d, "__value__", None), str)):
+                u = n.unwrapped
+                if isinstance(u, FR):
+                    try:
+                        u = py_unwrap(evaluate_ref(u))
+                    except Exception:
+                        u = ("<unevaluable>", repr(n.unwrapped))
+                if u != ud and u != d:
+                    viol("5-deferred-denotes-member", f"node #{i} {n!r}: its unwrapped form denotes {u!r}, the type it stands for unwraps to {ud!r}"[:500],
+                         bucket="5-unwrapped-form")
             if not any(d == p or ud == p for p in plain_types) and not (d == T or d == py_unwrap(T) or ud == py_unwrap(T)):
                 viol("4-cyclic-is-revisit", f"node #{i} {n!r} is flagged cyclic but {d!r} has no node of its own and is not the root")
     # 6 string aliases
@@ -354,6 +367,8 @@ def plan(tier, seed):
     for k in range(3):
         shards.append({"kind": "random", "seed": seed * 1000 + k, "n": n, "depth": 4 if tier == "quick" else 5})
     shards.append({"kind": "topo3", "seed": seed * 1000 + 77, "n": 300 if tier == "quick" else 6000})
+    # one generic - bare or behind a NewType / alias - met twice in one annotation
+    shards.append({"kind": "random", "seed": seed * 1000 + 60, "n": n, "depth": 3, "repeated": True})
     return shards
 
 
@@ -461,7 +476,8 @@ def run_shard(shard, col):
 
     adv = shard["seed"] % 2 == 1
     progs.drive_programs(col, seed=shard["seed"], n=shard["n"],
-                         spec_strategy=U.root_specs(max_depth=shard["depth"], mods=3 if adv else 2, adversarial=adv),
+                         spec_strategy=U.repeated_generic_specs() if shard.get("repeated") else
+                         U.root_specs(max_depth=shard["depth"], mods=3 if adv else 2, adversarial=adv),
                          per_program=per_program)
     col.exhaustive_done = True
 
